@@ -9,7 +9,8 @@
     in order, one header per line with name exactly the bytes before the colon and value exactly
     the bytes after it without the surrounding SP/HTAB — nothing dropped, merged, split, reordered.
   * `c08_block_default`: the same for the header part of requests/responses under the default
-    header options, at any offset (`BlockSpec` with `HCfg.default`).
+    header options, at any offset (`BlockSpec` with `HCfg.default`), with `k ≤ cap` headers stored
+    before.
   * `c08_lines_unique`: the decomposition into lines is unique.
 -/
 import Hx.Spec.Grammar
@@ -23,12 +24,12 @@ theorem c08_accept_iff (be : Backend) (hbe : be.Exact) (cap : Nat) (buf : List B
         n = ((lines.map HLine.bytes).flatten ++ eol).length ∧ hs = linesHeaders 0 lines :=
   parseHeaders_iff be hbe cap buf n hs
 
-theorem c08_block_default (cap off k : Nat) (input : List Byte) (n : Nat) (hs : List Hdr) :
+theorem c08_block_default (cap off k : Nat) (input : List Byte) (n : Nat) (hs : List Hdr) (hk : k ≤ cap) :
     BlockSpec HCfg.default cap off k input n hs ↔
       ∃ (lines : List HLine) (eol rest : List Byte), (∀ l ∈ lines, l.ok) ∧ IsEol eol ∧
         input = (lines.map HLine.bytes).flatten ++ eol ++ rest ∧ k + lines.length ≤ cap ∧
         n = ((lines.map HLine.bytes).flatten ++ eol).length ∧ hs = linesHeaders off lines :=
-  blockSpec_default_iff cap off k input n hs
+  blockSpec_default_iff cap off k input n hs hk
 
 theorem c08_lines_unique {lines lines' : List HLine} {eol eol' rest rest' : List Byte}
     (h : ∀ l ∈ lines, l.ok) (h' : ∀ l ∈ lines', l.ok) (he : IsEol eol) (he' : IsEol eol')
@@ -39,6 +40,7 @@ theorem c08_lines_unique {lines lines' : List HLine} {eol eol' rest rest' : List
 
 /-- non-vacuity: `Host: a \r\n` -/
 example : HLine.ok ⟨[0x48, 0x6F, 0x73, 0x74], [SP], [0x61], [SP], [CR, LF]⟩ :=
-  ⟨by decide, by decide, by decide, by decide, by decide, by decide, by decide, by simp, Or.inl rfl⟩
+  ⟨by decide, by decide, by unfold AllWs; decide, by decide, by decide, by decide, by unfold AllWs; decide, by simp,
+    Or.inl rfl⟩
 
 end Hx
